@@ -13,7 +13,7 @@ def run(ctx):
     ctx.setup()
     ctx.audit(THEOREMS, LEAN_FILES)
     n = 3000 if ctx.tier == "quick" else 60000
-    cases = c01.load_corpus("C01") + c01.load_corpus("C03") + c01.load_corpus("C13") + E.gen_cases(ctx.rng, n)
+    cases = c01.load_corpus("C01") + c01.load_corpus("C03") + c01.load_corpus("C13") + E.exhaustive_cases(ctx.tier) + E.gen_cases(ctx.rng, n)
     L, ML = E.run_batches(ctx, [E.case_line("large", d, e) for d, e in cases])
     F, MF = E.run_batches(ctx, [E.case_line("fast", d, e) for d, e in cases])
     st = dict(inputs=len(cases), equal=0, large_ne_fast=0, fast_ne_model=0, large_ne_model=0, model_fast_ne_model_large=0, tokens=0, diverging=0)
